@@ -276,8 +276,8 @@ static void model_changes(Ctx& c, i128 upto, std::vector<Change>* out) {
   }
 }
 
+typedef cctz::time_zone::civil_transition CT;
 static void check_c11(Ctx& c, const std::vector<long long>& I, hz::Result& r) {
-  typedef cctz::time_zone::civil_transition CT;
   auto TPMIN = cctz::time_point<cctz::seconds>::min(), TPMAX = cctz::time_point<cctz::seconds>::max();
   // reference changes up to a generous horizon (file + 450 rule years)
   i128 horizon = c.last_file + static_cast<i128>(450) * 31556952;
@@ -285,6 +285,22 @@ static void check_c11(Ctx& c, const std::vector<long long>& I, hz::Result& r) {
   if (horizon > IMAX) horizon = IMAX;
   std::vector<Change> R;
   model_changes(c, horizon, &R);
+  // A first entry at or before -2^59 that CHANGES the type (no zic writes that; cctz documents the entry as a sentinel
+  // that is never reported): whether that one change is reported is a don't-care, but it must be the same in both
+  // directions and for every query -- if next_transition(min()) reports it, it is part of the expected set everywhere.
+  {
+    std::vector<ref::RTrans> bb;
+    c.rz.transitions_in(IMIN, -(static_cast<i128>(1) << 59), &bb);
+    CT first;
+    if (!bb.empty() && !bb.back().before.same(bb.back().after) && c.tz.next_transition(cctz::time_point<cctz::seconds>::min(), &first)) {
+      Change ch;
+      ch.t = bb.back().t;
+      ch.to = ref::civil_from_secs(ch.t + bb.back().after.off);
+      ch.from = ref::civil_from_secs(ch.t + bb.back().before.off);
+      r.cls("C11:bigbang-entry-changes-type");
+      if (civil_of(first.to) == ch.to && civil_of(first.from) == ch.from) { R.insert(R.begin(), ch); r.cls("C11:bigbang-change-reported"); }
+    }
+  }
   size_t file_changes = 0;
   for (auto& ch : R) if (ch.t <= c.last_file) ++file_changes;
   auto fail = [&](const std::string& sig, const std::string& msg, i128 arg) {
